@@ -28,7 +28,7 @@
 (*   Q      n, trig, a, b    Gaussian number n is trig of coordinates a, b *)
 (*   Out    name, i, leaves  data dependencies of a returned quantity      *)
 (* Steps of the machine that leave no event (LastEdge, Assign, Rescale,    *)
-(* Decompose, Finish) are taken silently between events; they are          *)
+(* Decompose, UVectors .. Return) are taken silently between events; they are          *)
 (* deterministic, so the search stays linear in the length of the trace.   *)
 (* The trace is accepted iff every line is consumed (register 1 holds the  *)
 (* furthest line reached; POSTCONDITION TraceAccepted).                         *)
@@ -114,13 +114,13 @@ TQ ==
 \* data dependencies observed on returned values must be within what the model allows
 Allowed(name, i) ==
    CASE name = "u"      -> XAll
-     [] name = "v"      -> XAll
-     [] name = "jac"    -> XAll
+     [] name = "v"      -> outdeps.v
+     [] name = "jac"    -> outdeps.jac
      [] name = "utrop"  -> {}
      [] name = "vtrop"  -> {}
      [] name = "lambda" -> {}          \* provenance is cut by the f64 round trip
      [] name = "lmat"   -> XAll
-     [] name = "mom"    -> MomDeps(i)
+     [] name = "mom"    -> outdeps.mom[i + 1]
      [] name = "shift"  -> XAll
      [] OTHER           -> {}
 TOut ==
@@ -134,9 +134,9 @@ TOut ==
 LateMatrixError(r) ==
    /\ pc \in {"bm", "finish"} /\ Len(qsrc) = 0 /\ r \in {"ErrZeroDet", "ErrUnstable"} /\ (r = "ErrUnstable" => cfg.stab)
    /\ pc' = "done" /\ out' = r
-   /\ UNCHANGED <<g, tab, cfg, cur, order, ctr, roles, pend, nxi, om, utrE, vtrE, kdeps, xdeps, ctl, narrowed, lamdeps, qsrc, scale, logs>>
+   /\ UNCHANGED <<g, tab, cfg, cur, order, ctr, roles, pend, nxi, om, utrE, vtrE, kdeps, xdeps, ctl, narrowed, lamdeps, qsrc, scale, logs, outdeps>>
 Silent == /\ l' = l /\ Same
-          /\ \/ LastEdge \/ Assign \/ Rescale \/ Finish
+          /\ \/ LastEdge \/ Assign \/ Rescale \/ UVectors \/ VPoly \/ Momenta \/ Jacobian \/ Return
              \/ \E r \in {"Ok", "ErrZeroDet", "ErrUnstable"} : Decompose(r)
              \/ \E r \in {"ErrZeroDet", "ErrUnstable"} : LateMatrixError(r)
 
@@ -155,6 +155,7 @@ TI_Narrow == InCall => NarrowOnlyLambda
 TI_Sector == InCall => SectorFormula
 TI_Flags == InCall => (FlagsOK /\ FlagsComplete)
 TI_Logs  == InCall => LogsOK
+TI_OutDeps == InCall => OutDepsOK
 
 ASSUME TLCSet(1, 1)
 Track == TLCSet(1, IF l > TLCGet(1) THEN l ELSE TLCGet(1))
